@@ -34,6 +34,7 @@ def g_items(draw, max_items=None):
                                           n_frames=gen.integer(draw, 1, 10), r=r,
                                           zero_prob=gen.choice(draw, [0.0, 0.0, 0.3])) for lab in labels]
     c["y"] = labels
+    c["sessions"] = gen.share_counts(draw, c["sessions"], p["variances"], r)
     gen.revive_dead_components(c["sessions"], p["means"], p["variances"])
     c["estimator"] = gen.choice(draw, ["isv", "jfa", "ivector"])
     c["jfa"] = c["estimator"] == "jfa"
